@@ -13,7 +13,9 @@ EXPLANATION = (
     "not notify COMPLETE; (5) check_block hashes its own parameter; (6) the ciphertext-hash check is "
     "registered on the decode Deferred before delivery and hashes the segment it returns; (7) the fetcher "
     "stores a block only under state COMPLETE and decodes only with >= k validated blocks; (9) offset-table "
-    "sanity raises precede acceptance; (10) Segmentation writes only slices of delivered segments. "
+    "sanity raises precede acceptance; (10) Segmentation writes only slices of delivered segments, starting at the "
+    "wanted offset; (8) the hash-tree rules of C35 (journaled stores, rollback, conflict checks, propagation to the "
+    "root over every level) as rules C02.8.*. "
     "Undecided: hash collision resistance, zfec algebra, Python slice arithmetic.")
 
 NODE = "immutable.downloader.node:DownloadNode"
@@ -425,6 +427,31 @@ def run(ctx: Context):
             ok = isinstance(a0, ast.Subscript) and isinstance(a0.slice, ast.Slice) \
                 and fnorm.norm(node, a0.value) == gp[0] + "[1]"
             r.require(ok, g, cs.loc, "consumer.write(%s) is not a slice of the delivered segment" % src(g, a0))
+            if ok and a0.slice.lower is not None:
+                # the slice must start at the byte the reader asked for: (wanted offset - segment start), or at the
+                # overlap start on paths where overlap start == wanted offset was established
+                want = norm_src("self._offset - %s[0]" % gp[0])
+                # normalise at the node that defines the slice (self._offset is advanced afterwards)
+                defn = node
+                if isinstance(arg(cs.call, 0), ast.Name):
+                    nm = arg(cs.call, 0).id
+                    ds = [n for n in g.cfg().stmt_nodes() if nm in node_stores(n)]
+                    if len(ds) == 1:
+                        defn = ds[0]
+                low = fnorm.norm(defn, a0.slice.lower)
+                if low != want:
+                    m = re.match(r"^\((.+) \+ -1\*%s\[0\]\)$" % re.escape(gp[0]), low) or \
+                        re.match(r"^\(-1\*%s\[0\] \+ (.+)\)$" % re.escape(gp[0]), low)
+                    base = m.group(1) if m else None
+
+                    def aligned(t, lab, _b=base):
+                        f = fnorm.edge_fact(t, lab)
+                        return bool(f) and _b is not None and f[0] == "==" and {f[1], f[2]} == {_b, "self._offset"}
+                    bad = find_path_avoiding(g.cfg(), lambda x, _d=defn: x is _d, gate_edge=aligned) if base else [(defn, None)]
+                    for (t, w) in bad:
+                        r.violation(g, cs.loc, "the bytes written start at %s of the segment, which is not (wanted offset - segment "
+                                    "start) and is not established equal to it: a segment that starts after the wanted offset "
+                                    "would be delivered as if it began there" % low, w)
         # _got_segment is fed only by node.get_segment's Deferred
         gs = idx.func("immutable.downloader.segmentation:Segmentation._got_segment")
         bad, badrefs, total = callers_outside(idx, "_got_segment", ["immutable.downloader.segmentation:Segmentation._fetch_next"])
@@ -432,6 +459,11 @@ def run(ctx: Context):
             r.violation(cs.fn, cs.loc, "%s calls _got_segment directly" % short(cs.fn))
         for (f, nd) in badrefs:
             r.violation(f, f.loc(nd), "%s uses _got_segment as a callback" % short(f))
+
+
+    # -- 8. hash-tree acceptance / rejection discipline (shared with C35) ----
+    from sa.rules import C35 as _C35
+    _C35.run(ctx, P="C02.8")
 
 
 def _edge_leads_only_to_raise(cfg, n, lab):
